@@ -41,7 +41,7 @@ class History:
         Exceptions from the store propagate to the caller (they are verdict-relevant)."""
         r, lf, shadow, store = self.r, self.lf, self.shadow, self.store
         op = r.choice(['splice', 'splice', 'splice', 'ins_after', 'ins_before', 'remove', 'remove', 'update', 'update',
-                       'replace', 'permute', 'rebuild'])
+                       'replace', 'permute', 'rebuild', 'live'])
         n = len(shadow)
         info = {'op': op, 'n': n, 'changed': False, 'blocks': 1, 'removed': [], 'first_changed': None}
         if op == 'update':
@@ -120,6 +120,36 @@ class History:
             self.log.append((op, i, j, [shadow.index(x) for x in perm]))
             store.splice(perm, shadow[i], shadow[j])
             shadow[i:j + 1] = perm
+        elif op == 'live':
+            # a token that is in the store and outside the replaced range is offered again: the store has to refuse (a token has one
+            # place) and stay as it is. The token just after the replaced range and the reference itself are the edge cases.
+            if n < 2:
+                return None
+            i = r.randrange(n)
+            j = min(n - 1, i + r.choice([0, 0, 1, lf]))
+            outside = [x for x in (j + 1, j + 1, i - 1, r.randrange(n)) if 0 <= x < n and not i <= x <= j]
+            how = r.choice(['splice', 'ins_before', 'ins_after'])
+            if how != 'splice':
+                outside = [i, i, (i + 1) % n, r.randrange(n)]
+            if not outside:
+                return None
+            t = shadow[r.choice(outside)]
+            extra = [mk(r)] if r.random() < 0.5 else []
+            toks = extra + [t] if r.random() < 0.5 else [t] + extra
+            info.update(i=i, j=j, live=how, changed=False)
+            self.log.append((op, how, i, j, shadow.index(t)))
+            try:
+                if how == 'splice':
+                    store.splice(toks, shadow[i], shadow[j])
+                elif how == 'ins_before':
+                    store.insert_before(shadow[i], toks)
+                else:
+                    store.insert_after(shadow[i], toks)
+                info['live_accepted'] = True
+            except ValueError:
+                info['live_refused'] = True
+                if any(x.store_handle is not None for x in extra):
+                    info['live_accepted'] = True      # half-applied
         elif op == 'rebuild':
             if not n or r.random() < 0.7:
                 return None
